@@ -37,11 +37,12 @@ def build(ctx):
     G, D, E = 2, 1, ctx.q(1, 2)
     ctx.assumptions = ["recording visitor returning true at the k-th callback, k symbolic (k=0: never); geometry: numInGroup <= %d, data length <= %d, wire blockLength in [compiled, compiled+%d]; all bytes symbolic" % (G, D, E)]
     plan = [("vs_msg_le.xml", "17", "checked")] if ctx.quick else [(x, s, "checked") for s in ("11", "14", "17", "20") for x in ("vs_msg_le.xml", "vs_msg_be.xml")]
+    plan = hgen.plan_env(plan)
     for (xml, std, mode) in plan:
         sch, inc = hgen.gen_headers(ctx, xml)
         for msg in sch.messages:
             if ctx.quick and msg.name in c02.QUICK_SKIP: continue
-            g = msggen.MG(sch, msg, 1 if (ctx.quick and msg.name == "nsm") else G)   # nested message: G=1 in the quick tier (G=2 needs minutes)
+            g = msggen.MG(sch, msg, 1 if (ctx.quick and any(gr.groups for gr in msg.groups)) else G)   # nested message: G=1 in the quick tier (G=2 needs minutes)
             tags, lines, capn = msggen.visit_model(g)
             u = ctx.lower("c19_%s_%s" % (sch.ns, msg.name), g.cpp_prelude() + msggen.cpp_visit(g, tags), std=std, mode=mode, incs=[inc])
             N = g.max_size(E, D) + 1
@@ -55,6 +56,7 @@ def build(ctx):
     # ---- many entries: a group of zero-length entries with numInGroup over the whole uint8 range (no buffer needed): every entry is reported exactly once
     for (xml, std, mode) in plan[:1] if ctx.quick else plan:
         sch, inc = hgen.gen_headers(ctx, xml)
+        if not [m_ for m_ in sch.messages if m_.name == "odd"]: continue
         msg = sch.message("odd")
         g = msggen.MG(sch, msg, 1)
         tags, lines, capn = msggen.visit_model(g)
